@@ -40,6 +40,9 @@ def evaluate_subprocess(spec):
         out = os.path.join(wd, f"det{i}.pcapng")
         if os.path.exists(out):
             os.unlink(out)
+        if i % 2:        # every other run finds an older, longer file at its output path
+            with open(out, "wb") as f:
+                f.write(b"\x0a\x0d\x0d\x0a" + bytes(150000 + i))
         argv = scenario.argv_for(spec, inpath, klpath, out)
         r = runner.run_subprocess(argv, cwd=cwd, env=env, hashseed=hs)
         if r.code != 0 or r.exc:
@@ -65,8 +68,7 @@ def evaluate_inprocess(spec):
     out = os.path.join(wd, "det.out.pcapng")
 
     def run(inp, kl, reset):
-        if os.path.exists(out):
-            os.unlink(out)
+        # the output path is NOT cleaned between the runs: whatever an earlier run (or anything else) left there must not matter
         r = runner.run_inproc(scenario.argv_for(spec, inp, kl, out), reset=reset)
         return r, _sha(out)
     sig, detail = None, ""
@@ -81,6 +83,8 @@ def evaluate_inprocess(spec):
             break
         ref[nm] = _sha(out)
     if sig is None:
+        with open(out, "wb") as f:          # an older, much longer file is in the way
+            f.write(b"\x0a\x0d\x0d\x0a" + bytes(200000))
         seq = [("A", inpath, klpath, "A"), ("A again", inpath, klpath, "A"), ("B after A", inb, klb, "B"), ("A after B", inpath, klpath, "A"),
                ("B again", inb, klb, "B")]
         for name, inp, kl, which in seq:
@@ -151,7 +155,7 @@ def stages(tier):
 RULE = ("scenarios of 1-3 TLS/QUIC connections (QUIC with several CIDs of different lengths, incl. NEW_CONNECTION_ID CIDs that extend or are a "
         "prefix of a CID in use) are exported (a) by 4 fresh `python -m tlexport.main` processes with PYTHONHASHSEED 0 / 1 / two drawn values, three "
         "working directories and perturbed TZ/LANG/COLUMNS/HOME/LC_ALL, (b) in one process: A, A again, B, A, B with no reset between the runs (B = another capture with another key log of the same "
-        "size), each compared with what a fresh process exports for the same input; oracle: sha256 of the output file identical for the same "
+        "size), all writing to the same output path, which initially holds a longer stale file; each compared with what a fresh process exports for the same input; oracle: sha256 of the output file identical for the same "
         "(capture, secrets, options).  Non-trivial: >= 2 sessions or >= 3 CIDs; evaluations count "
         "TLExport runs")
 ASSUMPTIONS = ["the capture and key-log files are byte-identical between the runs (same paths)"]
